@@ -217,7 +217,17 @@ def execute(case):
         if case["stage"] >= 2:
             # guard: the earlier stages must have been right on this environment (C01 / C06 oracles)
             mb = run_machine(base, env, accs, "ref", poweron_zero=zero)
-            if compare_histories(mb.hist, [h for h in mr.hist if h[0] != "setup"]):
+            diff = compare_histories(mb.hist, [h for h in mr.hist if h[0] != "setup"])
+            if diff and pc:
+                # attribute the difference: if the optimised program is right as long as a launch leaves the registers
+                # alone (what the state tracking assumes), the writes the per-channel launch lowering issues behind its
+                # back are what makes a later launch observe other values than the program configured
+                mb2 = run_machine(base, env, accs, "ref", poweron_zero=zero, pc_side_effects=False)
+                mr2 = run_machine(R, env, accs, "ref", poweron_zero=zero, pc_side_effects=False)
+                if not compare_histories(mb2.hist, mr2.hist):
+                    out.update(status="violation", oracle="launch-writes-tracked-fields", message="after " + STAGES[case["stage"]] + ": " + diff + " - the per-channel launch lowering overwrites M / temporal_loop_bound / shift_* / mult_* while the state tracking still believes the values of the setup are in place, so fields removed from a later setup are missing", env_index=i)
+                    return out
+            if diff:
                 out["probes"]["guard-skipped-env"] = out["probes"].get("guard-skipped-env", 0) + 1
                 continue
         ms = CsrMachine(S, env, [decl], label="sub")
@@ -257,6 +267,13 @@ def execute(case):
     out["nontrivial"] = bool(launches)
     out["digest"] = digest_of(digests)
     return out
+
+
+def _kf_c04_1(case, outcome):
+    return bool(outcome.get("oracle") == "launch-writes-tracked-fields" and case.get("ast") and has_per_channel(case["ast"]["body"]))
+
+
+TRIGGERS = {"per_channel_launch_writes_tracked_fields": _kf_c04_1}
 
 
 def shrink(case):
